@@ -32,7 +32,13 @@ import (
 //     which the REAL workspace targeting knows it BEFORE migration, the v2 modules the real migrator
 //     wrote (path, workspace-relative excludes) and the triples AFTER migration == the Lean model
 //     evaluating BufModel.Config.owners on the v1 workspace and on readV2 (writeV2 (migrateFile ws));
-//   oracle (implementation only): after == before renamed (dir, root, p) -> (dir/root, ".", p).
+//     each module also carries whether its lint / breaking checks are switched off (`ignore: [.]`,
+//     as the real v1 reader sees it); the v2 modules carry the flags the real v2 reader returns for
+//     the migrated file == the model's migrateFile (equivLint …) (equivBreaking …) through
+//     readV2 (writeV2 …) (theorem migrate_keeps_disabled);
+//   oracle (implementation only): after == before renamed (dir, root, p) -> (dir/root, ".", p)
+//     (class migws-owners-changed); the switched-off flags of dir/root == those of the v1 module
+//     (class migws-disabled-changed).
 
 var quietLogger = slog.New(slog.NewTextHandler(io.Discard, nil))
 
@@ -96,6 +102,14 @@ type wsModule struct {
 	Dir   string // relative to the destination directory
 	Kind  string // v1beta1 | v1 | none (no buf.yaml)
 	Roots []migRoot
+	// LintIgnore / BreakingIgnore: the `ignore` list of the section ("" = no section).  "." names
+	// the module itself and switches the checks off; any other path leaves them on.
+	LintIgnore     string
+	BreakingIgnore string
+	// LintOff / BreakingOff: what the REAL v1 reader says (CheckConfig.Disabled()), filled in
+	// after the buf.yaml was written.
+	LintOff     bool
+	BreakingOff bool
 }
 
 // tripleOf names an owner by (module dir relative to dest, root, path): the root is what lies
@@ -197,6 +211,18 @@ func runMigWs(run *hx.Run, r *hx.Rand, n int) {
 				}
 			}
 			sort.Slice(m.Roots, func(a, b int) bool { return m.Roots[a].Root < m.Roots[b].Root })
+			if m.Kind != "none" {
+				pick := func() string {
+					switch x := rr.Intn(8); {
+					case x < 3:
+						return "." // the module itself: checks switched off
+					case x < 4:
+						return "pkg" // an ordinary ignore path: checks stay on
+					}
+					return ""
+				}
+				m.LintIgnore, m.BreakingIgnore = pick(), pick()
+			}
 		}
 		sort.Slice(mods, func(a, b int) bool { return mods[a].Dir < mods[b].Dir })
 
@@ -258,8 +284,21 @@ func runMigWs(run *hx.Run, r *hx.Rand, n int) {
 					}
 				}
 			}
+			if m.LintIgnore != "" {
+				yml.WriteString("lint:\n  ignore:\n    - " + m.LintIgnore + "\n")
+			}
+			if m.BreakingIgnore != "" {
+				yml.WriteString("breaking:\n  ignore:\n    - " + m.BreakingIgnore + "\n")
+			}
 			put(normalpath.Join(abs, "buf.yaml"), yml.String())
 			fmt.Fprintf(&describe, "%s/buf.yaml:\n%s", abs, yml.String())
+			// The flags as the real v1beta1/v1 reader sees them.
+			if v1File, err := bufconfig.GetBufYAMLFileForPrefix(ctx, bucket, abs); err == nil && len(v1File.ModuleConfigs()) == 1 {
+				mods[k].LintOff = v1File.ModuleConfigs()[0].LintConfig().Disabled()
+				mods[k].BreakingOff = v1File.ModuleConfigs()[0].BreakingConfig().Disabled()
+			} else {
+				panic(fmt.Sprintf("c16 migws harness: generated buf.yaml unreadable: %v\n%s", err, yml.String()))
+			}
 		}
 		add(normalpath.Join(dest, "nomodule", "n.proto"))
 		sort.Strings(files)
@@ -282,7 +321,7 @@ func runMigWs(run *hx.Run, r *hx.Rand, n int) {
 			for _, root := range m.Roots {
 				rootNodes = append(rootNodes, nd.L(nd.A(root.Root), nd.Strs(root.Excludes)))
 			}
-			modNodes = append(modNodes, nd.L(nd.A(m.Dir), nd.L(rootNodes...)))
+			modNodes = append(modNodes, nd.L(nd.A(m.Dir), nd.L(rootNodes...), nd.B(m.LintOff), nd.B(m.BreakingOff)))
 		}
 		var relFiles []string
 		for _, f := range files {
@@ -301,6 +340,15 @@ func runMigWs(run *hx.Run, r *hx.Rand, n int) {
 			run.Count("migws:kind:" + m.Kind)
 			if len(m.Roots) > 1 {
 				run.Count("migws:roots>1")
+			}
+			if m.LintOff {
+				run.Count("migws:lint-off")
+			}
+			if m.BreakingOff {
+				run.Count("migws:breaking-off")
+			}
+			if (m.LintIgnore != "" && !m.LintOff) || (m.BreakingIgnore != "" && !m.BreakingOff) {
+				run.Count("migws:ignore-but-on")
 			}
 			for _, root := range m.Roots {
 				if len(root.Excludes) > 0 {
@@ -366,7 +414,32 @@ func runMigWs(run *hx.Run, r *hx.Rand, n int) {
 				for _, x := range m.RootToExcludes()["."] {
 					ex = append(ex, normalpath.Join(m.DirPath(), x))
 				}
-				v2mods = append(v2mods, nd.L(nd.A(m.DirPath()), nd.Strs(ex)))
+				v2mods = append(v2mods, nd.L(nd.A(m.DirPath()), nd.Strs(ex), nd.B(m.LintConfig().Disabled()), nd.B(m.BreakingConfig().Disabled())))
+			}
+			// oracle (implementation only): every (module, root) of the v1 workspace is a v2 module
+			// at dir/root whose checks are switched off exactly when the v1 module's were.
+			{
+				got := map[string][2]bool{}
+				for _, m := range f.ModuleConfigs() {
+					got[m.DirPath()] = [2]bool{m.LintConfig().Disabled(), m.BreakingConfig().Disabled()}
+				}
+				var offDiffs []string
+				for _, m := range mods {
+					for _, root := range m.Roots {
+						dir := normalpath.Join(m.Dir, root.Root)
+						g, ok := got[dir]
+						if !ok {
+							continue // ownership differences are reported by migws-owners-changed
+						}
+						if g[0] != m.LintOff || g[1] != m.BreakingOff {
+							offDiffs = append(offDiffs, fmt.Sprintf("%s: lint off %v -> %v, breaking off %v -> %v", dir, m.LintOff, g[0], m.BreakingOff, g[1]))
+						}
+					}
+				}
+				if len(offDiffs) > 0 {
+					failC(run, hx.OracleFailure{Class: "migws-disabled-changed", What: "checks switched off with `ignore: [.]` before migration are not switched off after (or vice versa): " + strings.Join(offDiffs, "; "),
+						Input: describe.String(), Replay: replay})
+				}
 			}
 			after, err := workspaceOwners(bucket, dest, ".")
 			if err != nil {
